@@ -30,6 +30,15 @@ TAG_MAP.update(
 
 TYPE_MAP = decoder.TYPE_MAP.copy()
 
+# Codecs overridden by tag must be overridden by type ID as well, otherwise
+# decoding guided by `asn1Spec` would pick up the more permissive parent codec
+TYPE_MAP.update(
+    {univ.Boolean.typeId: TAG_MAP[univ.Boolean.tagSet],
+     univ.BitString.typeId: TAG_MAP[univ.BitString.tagSet],
+     univ.OctetString.typeId: TAG_MAP[univ.OctetString.tagSet],
+     univ.Real.typeId: TAG_MAP[univ.Real.tagSet]}
+)
+
 # Put in non-ambiguous types for faster codec lookup
 for typeDecoder in TAG_MAP.values():
     if typeDecoder.protoComponent is not None:
